@@ -53,6 +53,9 @@ class Spelling:
             self.rename_parts = True
 
     def uri(self, prefix):
+        if "~" in prefix:
+            # "x~b": the prefix x bound, on this element only, to another namespace
+            return "urn:verif:rebound:" + prefix.split("~", 1)[1]
         if prefix in TRANSITIONAL:
             return (STRICT if self.strict else TRANSITIONAL)[prefix]
         return COMMON[prefix]
@@ -130,6 +133,12 @@ class Serializer:
                 local_decl = ' xmlns="%s"' % sp.uri(p)
                 local_dom = [(("http://www.w3.org/2000/xmlns/", "xmlns"), sp.uri(p))]
                 cur_default = sp.uri(p)
+        elif "~" in p:
+            base = self.prefix(p.split("~", 1)[0])
+            qn = (sp.uri(p), l)
+            tag = base + ":" + l
+            local_decl = ' xmlns:%s="%s"' % (base, sp.uri(p))
+            local_dom = [(("http://www.w3.org/2000/xmlns/", base), sp.uri(p))]
         else:
             qn = (sp.uri(p), l)
             tag = l if (default_prefix == p) else self.prefix(p) + ":" + l
@@ -221,7 +230,7 @@ class Serializer:
             if isinstance(x, XmlElement):
                 p, _ = split(x.name)
                 if p:
-                    used.add(p)
+                    used.add(p.split("~", 1)[0])
                 for k in x.attributes:
                     ap, _ = split(k)
                     if ap:
